@@ -136,6 +136,11 @@ const (
 	FailsNowhere   = ""
 	FailsAtFactory = "factory" // the public factory (primitive constructor) returns an error
 	FailsAtUse     = "use"     // the factory succeeds, every operation fails
+	// FailsTooLarge marks keys that work in principle but must NEVER be used by the harness: streaming
+	// keys with a segment size near math.MaxInt32 (the constructor's ceiling), whose writer and reader
+	// allocate buffers of that size.  They exist for parameters / serialization checks only, are
+	// produced only when unusable combinations are asked for (Draw / DrawType), and count as not Usable.
+	FailsTooLarge = "too-large"
 	// FailsAtConstructor is no longer produced.  It described AES-GCM keys with iv_size != 12 or
 	// tag_size != 16 while their serialization was lossy (the factory then silently fell back to a
 	// 12/16 key-manager primitive).  Since repo commit 09abf34 the serializer refuses such keys and
@@ -468,5 +473,23 @@ var (
 var hmacKeySizes = []int{16, 17, 20, 28, 31, 32, 33, 48, 63, 64, 65, 127, 128, 129, 136}
 
 func drawHmacKeySize(t *rapid.T, label string, min int) int {
-	return pick(t, label, 50, within(hmacKeySizes, min, 136), min, 136)
+	n := pick(t, label, 50, within(hmacKeySizes, min, 136), min, 136)
+	return ceiling(t, label, n, HugeKeySize)
+}
+
+// Ceiling values: the key / salt / kid constructors have no upper bound (or, for the streaming
+// segment size, int32's), so one value far above everything else the generator draws stands for
+// "near the maximum".  Each is drawn at low weight (one case in forty) by an extra draw.
+const (
+	HugeKeySize  = 1024 // HMAC, HMAC-PRF, HKDF-PRF, JWT-HMAC keys and the HMAC key of AES-CTR-HMAC
+	HugeSaltSize = 300  // HKDF-PRF and ECIES salts
+	HugeKIDSize  = 200  // custom kid of the JWT key types
+)
+
+// ceiling replaces v by top in one case out of forty (draw label+"_ceiling").
+func ceiling(t *rapid.T, label string, v, top int) int {
+	if rapid.IntRange(0, 39).Draw(t, label+"_ceiling") == 0 {
+		return top
+	}
+	return v
 }
